@@ -138,6 +138,10 @@ def run_batch(job):
                 if own and mid % 5 in (1, 3):
                     reused = "timed-out" if mid % 5 == 1 else "answered"
                     sysid = own[0] if mid % 5 == 1 else own[1]
+                if bid % 4 == 1 and not reused:
+                    # a peer that numbers every transaction alike: the system bytes of the transaction it closed just before
+                    sysid = 0x424200 + bid
+                    reused = "previous-transaction-of-the-peer"
                 if any(x[0] == sysid for x in sent):
                     sysid = 0x70000 + mid          # distinct system bytes inside one burst
                 frame = hsmsrun.data_frame(sfn, fn, w, sysid, body)
@@ -253,7 +257,7 @@ def run(ctx: Ctx):
     c04_trace.check(ctx, wd, pmap, only_plain=True)
     ctx.rule = ("inbound messages = every catalogued S/F x W x body class + uncatalogued S/F pairs (thorough: all) + probe callbacks, "
                 "shuffled into long sequences on host and equipment handlers, system bytes incl. boundary values and values the handler "
-                "itself used before (a timed-out and an answered transaction of its own); in every fourth batch 2-3 messages arrive in "
+                "itself used before (a timed-out and an answered transaction of its own); in every fourth batch all primaries carry the same system bytes (the peer's previous, closed transaction); in every fourth batch 2-3 messages arrive in "
                 "one segment under random / PCT schedules with line-level preemption in the dispatcher loop; non-trivial = distinct (role,S,F,W,body) that "
                 "produced an answer")
     ctx.extra["inbound_with_reused_system_bytes"] = sum(1 for r_ in recs if r_.get("reused_system"))
